@@ -93,6 +93,46 @@ Theorem C20_other_connection_closing_inert : forall (c : cfg) (s1 s2 : list who)
 Proof. exact (conn_close_other_inert deployed). Qed.
 Print Assumptions C20_other_connection_closing_inert.
 
+(* The record of inbound handshakes in progress is a bracket around BOTH outcomes of the
+   responder's handshake handler: once the handler has finished -- accepted or refused, under any
+   schedule -- no record is left, and a refusing handler leaves no registry entry. *)
+Theorem C20_refused_handshake_leaves_no_marker : forall (c : cfg) (sched : list who),
+  rpc (run deployed c sched) = RDone ->
+  inflight (run deployed c sched) = 0%nat /\
+  (r_closed (run deployed c sched) = true -> registered (run deployed c sched) = None).
+Proof. exact C20_no_marker_stmt. Qed.
+Print Assumptions C20_refused_handshake_leaves_no_marker.
+
+(* Hence the guarantee survives earlier attempts.  Let any earlier handshake between the same two
+   peer ids -- any node descriptions c1 (e.g. an initiating node whose registry refused the
+   responder), any schedule s1, any outcome -- have run to the end of the responder's handler; a new
+   attempt starts on a new connection ([next_attempt]: per-attempt state fresh, the responder's
+   per-peer-id state kept), and the registry entry the old connection may have carried is gone
+   ([forget_registration]: after a refused attempt there is none; after an accepted one this is
+   the moment the old connection's close has been processed, before any stream of the new attempt
+   is looked up).  Then for every schedule s2 of the new attempt: no stream is refused, handled
+   streams carry the proven identity, and every opened stream is handled once the responder and
+   its wrapper have run. *)
+Theorem C20_usable_after_earlier_attempt : forall (c1 c2 : cfg) (s1 s2 : list who) (id : ident),
+  rpc (run deployed c1 s1) = RDone ->
+  ks_addr (rsp c2) = pid_addr (rsp c2) ->
+  let w0 := forget_registration (next_attempt (run deployed c1 s1)) in
+  returned (run_from deployed c2 w0 s2) = Some id ->
+  id = (pid_addr (rsp c2), ptype (rsp c2)) /\
+  Forall (fun s => s <> WUnknown /\ s <> WTorn /\
+                   forall j, s = WHandled j ->
+                             j = (pid_addr (ini c2), ptype (ini c2)) /\
+                             sig_addr (ini c2) = Some (pid_addr (ini c2)))
+         (wr (run_from deployed c2 w0 s2)) /\
+  forall k, (k < length (wr (run_from deployed c2 w0 s2)))%nat ->
+    nth_error (wr (run_from deployed c2 w0 (s2 ++ repeat R 5 ++ [W k; W k; W k]))) k =
+    Some (WHandled (pid_addr (ini c2), ptype (ini c2))).
+Proof. exact C20_after_earlier_attempt_stmt. Qed.
+Print Assumptions C20_usable_after_earlier_attempt.
+(* Not covered: attempts that overlap in time (the earlier handler still running when the next
+   handshake starts) and stream lookups that still see the old connection's registry entry; the
+   registry's connection bookkeeping is the subject of C14 (model/PeerRegistry.v). *)
+
 (* The wrapper as it was before the repair (no record of handshakes in progress, no waiting):
    two well-formed nodes and a schedule -- final write, return, open, lookup, then register --
    under which Connect succeeded, the responder does register the initiator, and the stream
